@@ -78,6 +78,7 @@ def _chunks(lst, n):
 
 
 class GeneralKernel:
+    fp = True  # also sampled on the unmodified float64 code (bounded stand-in for rounding)
     """_eval_deriv_contractions: any orders, any component list, symbolic points (total on centres)"""
 
     function = "gbasis.evals._deriv._eval_deriv_contractions"
